@@ -65,6 +65,12 @@ def well_formed(g):
             return 'option is its own origin'
         if len(set(c['opts'])) != len(c['opts']) or not c['opts']:
             return 'duplicate/empty options'
+    # degenerate: two choices on the SAME originating node that share an option -- two different assignments then
+    # denote one and the same graph, so "one vector per architecture" is not even well defined for the input
+    for i, c in enumerate(g['ch']):
+        for c2 in g['ch'][i+1:]:
+            if c['origin'] == c2['origin'] and set(c['opts']) & set(c2['opts']):
+                return 'sibling choices sharing an option'
     der = {(s, t) for s, t in g['der']}
     for a, b in g['inc']:
         if a == b:
